@@ -39,3 +39,5 @@ timeout 3000 python3 /verif/tools/baseline.py "$WT" > /tmp/baseline_$N.log 2>&1;
 cp /tmp/demo_$N.keep.rs "$demo"
 res $OUT baseline_rc=$rc_base "baseline_summary=$(grep passed= /tmp/baseline_$N.log | tail -1)"
 echo "$N: applies=true demo clean rc=$rc_clean patched rc=$rc_patched baseline rc=$rc_base"
+# free the build output of this worktree (several GB); the sources, patch and demo stay
+rm -rf "$WT/target"
